@@ -272,7 +272,22 @@ def run(chk):
             v = src(n.ast.value)
             g = [src(x) for x, p in ff.facts_at(n.ast) if p]
             chk.check(f"{v} is not None" in g, "R3", f"{B}:PdoMap.save | {v} only when set", save.loc(n.ast), f"written under {g}")
+            # ... and whenever it is set: another condition in force at the write (the transmission type, a derived property, a
+            # flag) leaves the device with the value it had before for the configurations that condition excludes
+            allg = [(src(x), p) for x, p in ff.facts_at(n.ast)]
+            other = [(t, p) for t, p in allg if v not in t and "self.enabled" not in t and "self.cob_id" not in t]
+            chk.check(not other, "R3", f"{B}:PdoMap.save | {v} written whenever it is set", save.loc(n.ast),
+                      f"`{src(n.ast)[:50]}` also depends on {other}: for a configuration where that does not hold the device keeps its old value, the read-back differs from what was configured")
 
+    # the PDO is re-validated only when every write before it went through: no write to the communication or mapping record sits in a
+    # `finally:` or `except` block (a half-written mapping would be switched on)
+    for tr in [x for x in ast.walk(save.node) if isinstance(x, ast.Try)]:
+        for blk, what in [(tr.finalbody, "finally")] + [(h.body, "except") for h in tr.handlers]:
+            for x in [y for b_ in blk for y in ast.walk(b_)]:
+                if isinstance(x, ast.Assign) and any(isinstance(t, ast.Attribute) and t.attr == "raw" and ("com_record" in src(t) or "map_array" in src(t)) for t in x.targets):
+                    chk.bad("R1", f"{B}:PdoMap.save | `{src(x.targets[0])}` written on the normal path only", save.loc(x),
+                            f"`{src(x)[:60]}` is in a `{what}:` block: it also runs when an earlier write was aborted or timed out, so the device is re-enabled (and the node subscribes) "
+                            f"with a mapping that was only partly written")
     # ------------------------------------------------------------------ R4 subscribe
     shared.pdo_subscribe(chk, "R4")
     wit = must_pass(fr.cfg, lambda n: n.kind == "stmt" and isinstance(n.ast, ast.Expr) and isinstance(n.ast.value, ast.Call)
